@@ -139,7 +139,7 @@ func (p *Plugin) Execute(ctx context.Context, req any) (any, *plugins.Error) {
 			t.Stop()
 		}
 	}
-	if !w.Park(p.gen, "px: "+path) {
+	if !w.Park(p.gen, fmt.Sprintf("px: %s #%d", path, k)) {
 		return dead()
 	}
 	ctxDone := ctx.Err() != nil
